@@ -1,5 +1,6 @@
 """Python STIX2 Memory Source/Sink"""
 
+import collections.abc
 import io
 import itertools
 import json
@@ -34,7 +35,12 @@ def _add(store, stix_data, allow_custom=True, version=None):
         for stix_obj in stix_data:
             _add(store, stix_obj, allow_custom, version)
 
-    elif stix_data["type"] == "bundle":
+    elif not isinstance(stix_data, collections.abc.Mapping):
+        raise TypeError(
+            "stix_data must be a STIX object, a dictionary or a list of them",
+        )
+
+    elif stix_data.get("type") == "bundle":
         # adding a json bundle - so just grab STIX objects
         for stix_obj in stix_data.get("objects", []):
             _add(store, stix_obj, allow_custom, version)
@@ -45,6 +51,10 @@ def _add(store, stix_data, allow_custom=True, version=None):
             stix_obj = stix_data
         else:
             stix_obj = parse(stix_data, allow_custom, version=version)
+
+        if "id" not in stix_obj:
+            # (content of a type this library does not know is not validated)
+            raise ValueError("Can't store an object which has no 'id'")
 
         # Map ID to a _ObjectFamily if the object is versioned, so we can track
         # multiple versions.  Otherwise, map directly to the object.  All
